@@ -359,7 +359,7 @@ Qed.
 
 Lemma hdr_array_intro : forall m alen dl dims p,
   m mod 64 <= 25 -> bit m 7 = true -> -1 <= alen <= max_variant_array_length ->
-  dl = zlen dims -> dl <= max_int32 -> forallb (fun d => 1 <=? d) dims = true -> (bit m 6 = false -> dims = []) ->
+  dl = zlen dims -> dl <= max_int32 -> forallb dim_ok dims = true -> (bit m 6 = false -> dims = []) ->
   (0 < dl -> dims_product dims 1 = Some alen) ->
   (if dl <? 2 then (if alen =? -1 then match p with VSlice None => true | _ => false end else shape_ok [Z.to_nat alen] p)
    else shape_ok (map Z.to_nat dims) p) = true ->
@@ -384,7 +384,7 @@ Proof.
 Qed.
 
 Lemma post_variant_dims : forall mask,
-  post (fun dd => fst dd = zlen (snd dd) /\ fst dd <= max_int32 /\ forallb (fun d => 1 <=? d) (snd dd) = true /\
+  post (fun dd => fst dd = zlen (snd dd) /\ fst dd <= max_int32 /\ forallb dim_ok (snd dd) = true /\
                   (bit mask 6 = false -> snd dd = [])) (variant_dims_dec mask).
 Proof.
   intros mask. unfold variant_dims_dec. destruct (bit mask 6).
@@ -394,7 +394,8 @@ Proof.
     destruct (r / 4 <? dl) eqn:E1; [apply post_fail|]. apply Z.ltb_ge in E1.
     apply post_tick_bind. eapply post_bind; [apply post_dec_n; apply post_dec_dim|]. intros ds [HF Hl].
     apply post_ret. cbn [fst snd]. split; [unfold zlen; lia|]. split; [unfold max_int32; lia|]. split; [|discriminate].
-    apply forallb_forall. intros d Hin. rewrite Forall_forall in HF. apply Z.leb_le. apply HF. exact Hin.
+    apply forallb_forall. intros d Hin. rewrite Forall_forall in HF. specialize (HF d Hin). unfold dim_ok.
+    apply andb_true_intro. split; apply Z.leb_le; lia.
   - apply post_ret. cbn [fst snd]. repeat split; try reflexivity. unfold max_int32. lia.
 Qed.
 
